@@ -14,7 +14,7 @@ from sim.seams import FS
 PROP = "C09"
 CONFIG = worlda.base_config(
     rule="the run directory is a jail: jail/alice/Mail (the user), jail/bob/Mail (decoy neighbour with its own folder tree, distinctive message tokens, "
-    "message counts and asimap.db), jail/secret.txt and jail/alice/outside/. Every command that takes a mailbox name, reference or pattern (SELECT, "
+    "message counts and asimap.db), jail/alice/Mail.old and jail/alice/Mail-archive (siblings whose path begins with the mail directory's path), jail/secret.txt and jail/alice/outside/. Every command that takes a mailbox name, reference or pattern (SELECT, "
     "EXAMINE, CREATE, DELETE, RENAME both positions, SUBSCRIBE, UNSUBSCRIBE, STATUS, APPEND, COPY, MOVE, LIST/LSUB reference and pattern, LIST-EXTENDED "
     "pattern lists) is issued with names from a hostile pool ('..', '../bob/Mail/inbox', 'a/../../bob/...', the absolute jail path, '//abs', './..', "
     "...) in atom, quoted, synchronising-literal and literal+ encodings, interleaved with benign namespace ops, also after a restart. Oracle at the "
@@ -30,6 +30,9 @@ HOSTILE = [
     "./..", "../bob/Mail/lists/dev", "inbox/../../../bob/Mail/inbox", "{JAIL}/bob/Mail/inbox", "/{JAIL}/bob/Mail/inbox", "//{JAIL}/bob/Mail/inbox",
     "{JAIL}/secret.txt", "../../alice/outside", "a/../..", "..//bob/Mail/inbox", "../bob/Mail/inbox/", "../bob/Mail/new-by-alice", "../outside/created",
     "../alice/Mail/../../bob/Mail/inbox",
+    # siblings whose path merely *begins* with the mail directory's path (a prefix test on strings lets them through)
+    "../Mail.old/inbox", "../Mail.old", "../Mail.old/created-by-alice", "//{JAIL}/alice/Mail.old/inbox", "{JAIL}/alice/Mail.old/inbox", "a/../../Mail.old/inbox",
+    "../Mail-archive/inbox", "../Mail2",
 ]
 # look-alikes that stay inside the mail directory: any outcome is fine, but the seam oracle still applies
 LOOKALIKE = ["....//bob", "..\\bob", "%2e%2e/bob/Mail/inbox", "a/../b", "a/./b", "...", "a/..b/c", "..a"]
@@ -39,7 +42,7 @@ TEMPLATES = [
     'LIST "" {npat}', "LSUB {n} *", 'LSUB "" {npat}', 'LIST "" ({npat} "inbox")', "LIST (SUBSCRIBED) {n} *", 'LIST "" {npat} RETURN (STATUS (MESSAGES))',
     "LIST {n} {npat}",
 ]
-DECOY_TOKS = [9001, 9002, 9003, 9004, 9005]
+DECOY_TOKS = [9001, 9002, 9003, 9004, 9005, 9006, 9007]
 
 
 def encode_name(r, name):
@@ -62,8 +65,16 @@ class JailInterp(Interp):
         jail = self.ctx.jail
         self.outside_root = jail
         bob = os.path.join(jail, "bob", "Mail")
-        for folder, toks in (("inbox", DECOY_TOKS[:3]), ("lists/dev", DECOY_TOKS[3:])):
+        for folder, toks in (("inbox", DECOY_TOKS[:3]), ("lists/dev", DECOY_TOKS[3:5])):
             path = os.path.join(bob, folder)
+            os.makedirs(path, exist_ok=True)
+            for i, t in enumerate(toks):
+                with open(os.path.join(path, str(i + 1)), "wb") as f:
+                    f.write(corpus.build("plain", t))
+            stdmailbox.MH(path, create=False).set_sequences({"unseen": [1]})
+        # siblings of the mail directory whose names start with its name
+        for sib, toks in (("Mail.old", DECOY_TOKS[5:6]), ("Mail-archive", DECOY_TOKS[6:7])):
+            path = os.path.join(jail, "alice", sib, "inbox")
             os.makedirs(path, exist_ok=True)
             for i, t in enumerate(toks):
                 with open(os.path.join(path, str(i + 1)), "wb") as f:
